@@ -247,6 +247,10 @@ def export(E, m, nmax=2, alphabet=None, start=None):
     except NotImplementedError:
         E.cover("refused")
         return
+    except Exception as e:
+        E.fail("C13:to_tk:raises-%s:%s" % (type(e).__name__, shape_key(c)),
+               info=str(c))
+        return
     local = c.init_and_discard().eval(mixed=True).array
     got = exported_distribution(t)
     sym.prove_equal(E, got, local, "C13:to_tk:distribution-differs:"
@@ -412,7 +416,7 @@ def backend(E):
 def harnesses(tier):
     q = tier == "quick"
     T = 900 if q else 1200
-    m = 2 if q else 3
+    m = 2
     hs = [
         H("export", export, dict(m=m), FUNCS, covers=["exported", "roundtrip"],
           engine="SYM (z3 QF_NRA) + reference tket semantics (state vector "
@@ -424,17 +428,17 @@ def harnesses(tier):
           "itself is trusted", stubs=["reference tket op matrices validated "
                                       "against pytket Op.get_unitary"],
           timeout_s=T, solver_timeout_ms=20000),
-        H("imports", imports, dict(nq=2, depth=2 if q else 3), FUNCS,
+        H("imports", imports, dict(nq=2, depth=2), FUNCS,
           covers=["imported"], engine="SYM (z3 QF_NRA)",
           bounds="raw tket circuits on <= 2 qubits, <= 2 bits, depth %d over "
           "{H,X,Y,S,T,Rx,Rz,CX,CZ,SWAP,CRz (symbolic angles),Measure} on all "
-          "qubit pairs" % (2 if q else 3), timeout_s=T,
+          "qubit pairs" % 2, timeout_s=T,
           solver_timeout_ms=20000),
         H("imports4", imports, dict(nq=4, depth=1, symbolic=False, small=True),
           FUNCS, covers=["imported"], engine="numeric cross-check",
           bounds="raw tket circuits on 4 qubits with one two-qubit gate "
           "(CX, CZ, CRz) on every ordered pair, concrete angle", timeout_s=T),
-        H("imports3", imports, dict(nq=3, depth=2, symbolic=False, small=q),
+        H("imports3", imports, dict(nq=3, depth=2, symbolic=False, small=True),
           FUNCS,
           covers=["imported"], engine="numeric cross-check (3-qubit mixed "
           "evaluation on sympy arrays takes minutes per circuit)",
@@ -457,11 +461,11 @@ def harnesses(tier):
           "qubit register bookkeeping of to_tk", timeout_s=T,
           solver_timeout_ms=20000),
         H("bookkeeping_bits", export,
-          dict(m=4, nmax=2, alphabet=['bits', 'bra0', 'bra1', 'measure'],
+          dict(m=4, nmax=2, alphabet=['bits', 'bra1', 'measure'],
                start=3),
           FUNCS, covers=["exported", "roundtrip"], engine="SYM + reference "
           "tket semantics", bounds="H(x)H(x)H|000> then 4 layers over "
-          "{Bits(0) at every position, Bra(0), Bra(1), Measure}: the bit "
+          "{Bits(0) at every position, Bra(1), Measure}: the bit "
           "register / post-selection bookkeeping of to_tk", timeout_s=T,
           solver_timeout_ms=20000)]
     return hs
